@@ -21,6 +21,7 @@ import (
 	"github.com/buildkite/go-pipeline/ordered"
 	"github.com/buildkite/go-pipeline/signature"
 	"github.com/buildkite/go-pipeline/warning"
+	"github.com/lestrrat-go/jwx/v2/jwa"
 	"gopkg.in/yaml.v3"
 
 	"verifharness/core"
@@ -47,7 +48,7 @@ func pipelineWork(src []byte, k sigKey) string {
 	yb, yerr := yaml.Marshal(p)
 	fmt.Fprintf(&b, "|%s|%v|%s|%v", jb, jerr, yb, yerr)
 	penv := map[string]string{"DEPLOY": "1"}
-	serr := signature.SignSteps(context.Background(), p.Steps, k.signer, "repo", signature.WithEnv(penv))
+	serr := signature.SignSteps(context.Background(), p.Steps, k.signer, "repo", signature.WithEnv(penv), signature.WithLogger(&captureLogger{}), signature.WithDebugSigning(true))
 	fmt.Fprintf(&b, "|sign:%v", serr != nil)
 	if serr == nil {
 		for _, cs := range commandStepsOf(p.Steps) {
@@ -92,11 +93,15 @@ func runC19(c *ctx) error {
 				srcs = append(srcs, b)
 			}
 		}
-		k := keys[0] // EdDSA: deterministic signatures, so digests are comparable
-		seq := make([]string, len(srcs))
-		for i, s := range srcs {
-			seq[i] = pipelineWork(s, k)
+		// a key pair nobody has used yet (EdDSA: deterministic signatures, so digests are comparable), and
+		// the concurrent pass first: whatever the library does on first use of a key happens under contention
+		k := keys[0]
+		if priv, pub, err := jwkutil.NewKeyPair(fmt.Sprintf("fresh-%d", round), jwa.EdDSA); err == nil {
+			if pk, ok := priv.Key(0); ok {
+				k = sigKey{id: 1000 + round, kind: "EdDSA", signer: pk, verif: pub, alg: "EdDSA"}
+			}
 		}
+		seq := make([]string, len(srcs))
 		conc := make([]string, len(srcs))
 		var wg sync.WaitGroup
 		for i := range srcs {
@@ -112,6 +117,9 @@ func runC19(c *ctx) error {
 			}(i)
 		}
 		wg.Wait()
+		for i, s := range srcs {
+			seq[i] = pipelineWork(s, k)
+		}
 		for i := range srcs {
 			c.res.OracleChecks++
 			c.res.Case(string(srcs[i]), true)
